@@ -149,6 +149,17 @@ def run(res):
                 for tail in ([], [" nop"] if seg == "c" else [".cseg", " nop"]):
                     e2 = exp if exp[0] == "ERR" or not tail else ("OK", exp[1] + "0000", exp[2])
                     cases.append(([{"c": ".cseg", "e": ".eseg", "d": ".dseg"}[seg], (".%s %s" % (d, ", ".join(ops))).rstrip()] + tail, e2))
+    # operand lists separated by blanks instead of commas (the grammar allows up to five): strings and plain numbers
+    for seg in ("c", "e"):
+        for ops in (['"ab"', '"cd"'], ['"abc"', "1"], ["7", '"xy"'], ['"a"', '"b"', '"c"'], ["1", "2", "3"], ['"x"', "65", '"y"', "66", '"z"'], ["10", "20", "30", "40", "50"],
+                    ['"Mixed Case"', "0"], ['"a;b"', '"c"'], ["'A'", '"bc"'], ['"ab"', "'c'"]):
+            for sep in (" ", "  ", "\t", " \t "):
+                out = bytearray()
+                for o in ops:
+                    out += o.strip('"').encode() if o.startswith('"') else bytes([ord(o[1])]) if o.startswith("'") else int(o).to_bytes(1, "little")
+                if seg == "c" and len(out) % 2 == 1:
+                    out += b"\0"
+                cases.append(([".cseg" if seg == "c" else ".eseg", ".db " + sep.join(ops)], ("OK", out.hex() if seg == "c" else "", out.hex() if seg == "e" else "")))
     texts = ["\n".join(l) + "\n" for l, _ in cases]
     obs = P.correspond(res, vh, exe, texts, "data-directive programs")
     nerr = 0
